@@ -629,7 +629,10 @@ class StyleElement(TTMLElement):
       nested_styles.update(style_ctx.styles)
 
       for style_prop, value in nested_styles.items():
-        parent_ctx.model_element.set_style(style_prop, value)
+        try:
+          parent_ctx.model_element.set_style(style_prop, value)
+        except ValueError:
+          LOGGER.error("Error reading style property: %s", style_prop.__name__)
 
       return None
 
@@ -758,7 +761,10 @@ class ContentElement(TTMLElement):
 
         for model_prop, value in style_element.styles.items():
           if not self.model_element.has_style(model_prop):
-            self.model_element.set_style(model_prop, value)
+            try:
+              self.model_element.set_style(model_prop, value)
+            except ValueError:
+              LOGGER.error("Error reading style property %s of style %s", model_prop.__name__, style_ref)
 
     def process_specified_styling(self, xml_elem):
       '''Processes specified styling
